@@ -843,6 +843,10 @@ impl WithPurl for GrabOutcome {
         self.0 = Some(FlavorOutcome::Built(observe(p), text));
         if panicked {
             acc.violate(Violation { prop: "C06", kind: "panic".into(), case: self.1.clone().unwrap_or(json!({"engine": "c13-flavors"})), detail: format!("{f}: to_string() of a built PURL panics") });
+            // C03: "to_string() is always pkg: + lower-case type + ..." - for a built-in type parameter a panic is not that
+            if self.2 & M03 != 0 {
+                acc.violate(Violation { prop: "C03", kind: "to_string-panics".into(), case: self.1.clone().unwrap_or(json!({"engine": "c13-flavors"})), detail: format!("{f}: build() handed out a PURL (type {:?}) whose to_string() panics", observe(p).ty) });
+            }
             return;
         }
         if let Some(case) = &self.1 {
